@@ -1103,7 +1103,7 @@ func runC20(c *lib.Ctx) {
 	}
 	cases := c20Sweep(c)
 	nSweep := len(cases)
-	nRandom := c.Scale(260, 2600)
+	nRandom := c.Scale(260, 1600)
 	for i := 0; i < nRandom; i++ {
 		cases = append(cases, c20Composite(c, c.Rng, free))
 	}
